@@ -190,6 +190,25 @@ def run_check(prop, tier):
                 if len(samples) < 12:
                     samples.append({"stream": stream, "input": [x[:160] for x in readable(c[1])], "impl": res[c[0]][1][:200]})
             all_fails += [(stream,) + f for f in fails]
+    # 2b. a case killed by the supervisor's time budget may be an artefact of machine load: such failures are
+    #     re-run alone with five times the budget, and only what still fails is kept
+    sus = [f for f in all_fails if "HANG" in f[6] and "HANG" not in f[5]]
+    if sus:
+        sus.sort(key=lambda f: sum(len(x) for x in f[2]))
+        keep = []; confirmed_any = False
+        for (stream, cid, fields, kind, why, m, im) in sus[:4]:
+            r2 = core.run_stream(prop.id + "-confirm", stream, [("c", fields)], case_ms=prop.case_ms * 5)
+            m2, im2 = r2["c"]
+            why2 = prop.oracle(stream, fields, im2)
+            if why2:
+                keep.append((stream, cid, fields, "oracle", why2, m2, im2)); confirmed_any = True
+            elif not prop.same(stream, m2, im2):
+                keep.append((stream, cid, fields, "correspondence", "model and implementation differ", m2, im2)); confirmed_any = True
+        if confirmed_any:
+            keep += sus[4:]
+        log(f"[{prop.id}] {len(sus)} case(s) hit the time budget; re-run alone with 5x budget: {len(keep)} still fail")
+        susids = {(f[0], f[1]) for f in sus}
+        all_fails = [f for f in all_fails if (f[0], f[1]) not in susids] + keep
     # 3. classify failures
     fresh = []
     for (stream, cid, fields, kind, why, m, im) in all_fails:
